@@ -194,7 +194,7 @@ PROPS = {
                 "hash of (cell, per op: kind, error class, delivered event parts, queue length class, closed); non-trivial iff a backlog existed "
                 "at some observation or a call returned an error",
         "assumptions": [_KERNEL, _ATOMIC,
-                        "sendfile(2) transfers the range it reports and the source file is not truncated while queued; dup(2) succeeds",
+                        "sendfile(2) transfers the range it reports and the source file is not truncated while queued",
                         _IOV,
                         "non-interleaving of concurrent calls rests on 'one call = one critical section' (critical-section predicates "
                         "cs_write_calls_locked + the real-tier oracle c01-real-stream with concurrent writer goroutines), not on a "
